@@ -49,7 +49,9 @@ def formula_set(tier):
     I = ((0, 1), (1, 2))
     U = F.unary_ops(I, ops=('not', 'once', 'historically', 'eventually', 'always', 'prev', 'rise'))
     B = F.binary_ops(I, ops=('and', 'or', 'implies', 'since', 'until'), unless=False)
-    leaves = [(F.PX, F.PY, MIX), (MIX, F.PX, F.PY), (F.PY, EQ, F.PX)]
+    GT = ('pred', '>', F.X, F.C0)      # strict comparisons: truth value and robustness sign differ exactly at the threshold
+    LT = ('pred', '<', F.Y, F.C1)
+    leaves = [(F.PX, F.PY, MIX), (MIX, F.PX, F.PY), (F.PY, EQ, F.PX), (GT, LT, GT)]
     fs = list(F.F(1, U, B, leaves))
     f2 = [f for f in F.F(2, U, B, leaves[:1] if quick else leaves) if F.size(f) == 2]
     fs += f2[::6] if quick else f2
@@ -92,7 +94,9 @@ def dense_signals(vs):
     global DENSE_SIGS
     if DENSE_SIGS is None:
         sx = dref.signals_L(2, F.V2, 0.0, max_interior=1)
-        DENSE_SIGS = {1: [{'x': s} for s in sx], 2: [{'x': a, 'y': b} for a in sx[::3] for b in sx[1::4]]}
+        s3 = dref.signals_L(2, (-1.0, 0.0, 1.0), 0.0, max_interior=1)   # hits the thresholds 0 and 1 exactly
+        DENSE_SIGS = {1: [{'x': s} for s in sx[::2]] + [{'x': s} for s in s3[::3]],
+                      2: [{'x': a, 'y': b} for a in sx[::4] for b in sx[1::5]] + [{'x': a, 'y': b} for a in s3[::9] for b in s3[3::13]]}
     return [{v: s[v if v in s else 'x'] for v in vs} for s in DENSE_SIGS[len(vs)]]
 
 
@@ -157,7 +161,11 @@ def run_shard(shard, tier, res):
         n = 3 if len(vs) == 1 else 2
         if not quick:
             n += 1
-        traces = [F.trace_dict(t, vs) for t in F.traces(n, F.V3 if len(vs) == 1 else F.V2, len(vs))]
+        if len(vs) == 1:
+            tl = list(F.traces(n, (-1.0, 0.0, 1.0, 2.0), 1))
+        else:
+            tl = list(F.traces(n, F.V2, 2)) + list(F.traces(n, (0.0, 1.0), 2))     # {-1,2} and the thresholds themselves
+        traces = [F.trace_dict(t, vs) for t in tl]
         for kind, pastify in plans_for(f):
             if kind.startswith('dt'):
                 datas = [(w, 'all') for w in traces]
